@@ -218,6 +218,48 @@ def job_cases(job, P, ADE):
     return {"obs": res}
 
 
+def job_pack(job, P, ADE):
+    """The decoder as the pack machinery calls it: a two-object pack file (base of the given type,
+    OFS_DELTA entry carrying the delta) is resolved by dulwich.pack.UnpackedObjectIterator
+    (DeltaChainIterator._resolve_object -> apply_delta)."""
+    from dulwich.object_format import DEFAULT_OBJECT_FORMAT
+    from harness import c03_data as D
+    res = []
+    d = os.path.dirname(job["out"])
+    with open(job["path"]) as f:
+        cases = [json.loads(line) for line in f if line.strip()]
+    for c in cases:
+        base, delta = load_case(c)
+        data, offs = D.write_pack([("obj", c["type"], base), ("ofs_delta", 0, delta)])
+        path = os.path.join(d, "case.pack")
+        with open(path, "wb") as f:
+            f.write(data)
+
+        def fn():
+            t0 = time.perf_counter()
+            r0 = maxrss()
+            try:
+                pd = P.PackData(path, DEFAULT_OBJECT_FORMAT)
+                try:
+                    got = {u.offset: b"".join(u.obj_chunks) for u in P.UnpackedObjectIterator.for_pack_data(pd)}
+                finally:
+                    pd.close()
+                obs = {"k": "bytes", "out": got[offs[1]], "base_ok": got[offs[0]] == base}
+            except ADE as e:
+                obs = {"k": "delta-error", "msg": str(e)[:100]}
+            except BaseException as e:  # noqa: BLE001
+                name = type(e).__name__
+                obs = {"k": "panic" if name == "PanicException" else "exception", "cls": name, "msg": str(e)[:200]}
+            obs["rss_kb"] = maxrss() - r0
+            obs["ms"] = round((time.perf_counter() - t0) * 1000, 2)
+            return obs
+
+        obs = isolated(fn, 1 << 16) if c.get("iso") else pack_out(fn(), 1 << 16)
+        obs["id"] = c["id"]
+        res.append(obs)
+    return {"obs": res}
+
+
 def job_encode(job, P, ADE):
     """Encode cases: {"id", "base": recipe, "target": recipe}; each in a forked grandchild when "iso"."""
     from harness import c03_data as D
@@ -258,7 +300,7 @@ def main():
     resource.setrlimit(resource.RLIMIT_AS, (AS_LIMIT, AS_LIMIT))
     resource.setrlimit(resource.RLIMIT_CORE, (0, 0))
     P, ADE = setup(job["mode"])
-    fn = {"dump": job_dump, "cases": job_cases, "encode": job_encode, "prims": job_prims}[job["kind"]]
+    fn = {"dump": job_dump, "cases": job_cases, "pack": job_pack, "encode": job_encode, "prims": job_prims}[job["kind"]]
     out = fn(job, P, ADE)
     out["mode"] = job["mode"]
     tmp = job["out"] + ".tmp"
